@@ -141,7 +141,7 @@ def make(width, endianness, epnum=3, signal_domain="usb"):
 
 
 def contracts(tier):
-    widths = (1, 8, 16, 24) if tier == "quick" else (1, 2, 7, 8, 9, 12, 16, 17, 24, 32, 33, 64)
+    widths = (1, 8, 12, 16, 24) if tier == "quick" else (1, 2, 7, 8, 9, 12, 16, 17, 24, 32, 33, 64)
     for w in widths:
         for e in ("little", "big"):
             yield ("USBSignalInEndpoint", f"width{w}_{e}", make(w, e))
